@@ -146,6 +146,32 @@ Fixpoint decl (f : nat) (s : string) {struct f} : res snode * N :=
                 struct_type (decl f'); tuple_type (decl f')] s
   end.
 
+(* ---------- the repaired grammar of init() (design/C07.grammar.fix.diff) ----------
+   The common prefix "(" list ")" is parsed once, followed by an optional
+   Maybe(nil, And(nil, "<" structName() typeMemberList ">")); the callback nodifyTupleOrStruct
+   hands the first three nodes to nodifyTupleType when the optional part is MaybeNone and the
+   seven nodes "(" list ")" "<" name members ">" to nodifyStrucType otherwise (Maybe with a nil
+   callback wraps the node of its parser, itself the list of the four children, in a
+   one-element list).  declarationType = basic, map, array, this alternative. *)
+Definition nodify_tuple_or_struct (ns : list snode) : snode :=
+  match ns with
+  | [a; l; b; NNone] => nodify_tuple [a; l; b]
+  | [a; l; b; NList [NList def]] => nodify_struct (a :: l :: b :: def)
+  | _ => NErr
+  end.
+
+Definition struct_def : sparser := pand None [atom "<"; struct_name; member_list; atom ">"].
+Definition tuple_or_struct_type (d : sparser) : sparser :=
+  pand (Some nodify_tuple_or_struct) [atom "("; list_type d; atom ")"; maybe None struct_def].
+
+Fixpoint decl_m (f : nat) (s : string) {struct f} : res snode * N :=
+  match f with
+  | O => (NoFuel, 0%N)
+  | S f' =>
+      por None [basic_type; map_type (decl_m f'); array_type (decl_m f');
+                tuple_or_struct_type (decl_m f')] s
+  end.
+
 (* ---------- Parse ---------- *)
 Inductive presult := POk (t : ty) | PErr | PFuel.
 
@@ -175,6 +201,17 @@ Definition parse_c (s : string) : presult * N :=
 Definition parse (s : string) : presult := fst (parse_c s).
 (* number of parser invocations signature.Parse makes on s *)
 Definition parse_steps (s : string) : N := snd (parse_c s).
+
+(* signature.Parse with the repaired grammar, and its number of parser invocations *)
+Definition parse_fuel_m (f : nat) (s : string) : presult := finish (fst (decl_m f s)).
+Definition parse_c_m (s : string) : presult * N :=
+  let (r, k) := decl_m (S (String.length s)) s in (finish r, k).
+Definition parse_m (s : string) : presult := fst (parse_c_m s).
+Definition parse_steps_m (s : string) : N := snd (parse_c_m s).
+
+(* which grammar the source has (observed: fact f_sig_grammar, TieC09.v) *)
+Definition parse_g (merged : bool) (s : string) : presult := if merged then parse_m s else parse s.
+Definition parse_steps_g (merged : bool) (s : string) : N := if merged then parse_steps_m s else parse_steps s.
 
 (* ---------- what the other methods of Type say ---------- *)
 (* Type.SignatureIDL() *)
